@@ -649,6 +649,59 @@ class DecisionCtx(PCtx):
         return self.assign[k]
 
 
+class NormCtx(DecisionCtx):
+    """decision context that normalises every intermediate polynomial with `norm` (e.g. reduction modulo the ideal of the
+    assumed relations between the inputs) and lets `atom_hook(kind, arg_poly)` rewrite sqrt / fabs atoms at creation time
+    (perfect squares, signs fixed by the regime).  Keeps intermediate results small when inputs satisfy algebraic relations."""
+
+    def __init__(self, assign, norm, atom_hook=None):
+        super().__init__(assign)
+        self.norm = norm
+        self.atom_hook = atom_hook
+
+    def fpoly(self, t):
+        r = self.fmemo.get(t)
+        if r is None:
+            r = self.fmemo[t] = self.norm(reduce_inv(self._fpoly(t)))
+        return r
+
+    def _fatom(self, *key):
+        if self.atom_hook is not None and key[0] in ('sqrt', 'fabs') and len(key) == 2 and key[1][0] == 'P':
+            r = self.atom_hook(key[0], key[1][1], self)
+            if r is not None:
+                return r
+        return Poly.atom(key)
+
+
+class TooManyPaths(Exception):
+    pass
+
+
+def decision_paths(make_ctx, evaluate, rels=('lt', 'gt'), max_leaves=3000):
+    """depth-first exploration of the decision tree of a computation: `evaluate(ctx)` is run under a growing assignment of
+    order relations / booleans; whenever it needs an undecided comparison the path forks.  Returns the leaves
+    [(assignment {atom: value} in decision order, infos {atom: (poly, poly)}, value, ctx)]."""
+    leaves = []
+
+    def rec(assign, infos):
+        cx = make_ctx(assign)
+        try:
+            val = evaluate(cx)
+        except NeedAtom as e:
+            for v in (rels if e.key[0] == 'pair' else (False, True)):
+                a2 = dict(assign)
+                a2[e.key] = v
+                i2 = dict(infos)
+                i2[e.key] = e.info
+                rec(a2, i2)
+            return
+        leaves.append((assign, infos, val, cx))
+        if len(leaves) > max_leaves:
+            raise TooManyPaths()
+    rec({}, {})
+    return leaves
+
+
 def _definite(p):
     """is the polynomial sign-definite (never zero) by inspection: even powers only, one sign, non-zero constant?"""
     if not p.t or () not in p.t:
@@ -862,6 +915,43 @@ def _sphere_point(rng, n):
         return pt
 
 
+def _solve_affine(eqs, cands, env, rng):
+    """choose len(eqs) of the candidate variables in which the equations are jointly affine, and solve the linear system at the
+    sampled values of everything else (exact rational Gaussian elimination); updates env; False if singular / not affine"""
+    n = len(eqs)
+    xs = rng.sample(cands, n)
+    A = [[Fraction(0)] * n for _ in range(n)]
+    b = [Fraction(0)] * n
+    for i, q in enumerate(eqs):
+        for m, c in q.t.items():
+            inx = [x for x in xs if x in m]
+            if len(inx) > 1 or any(m.count(x) > 1 for x in inx):
+                return False
+            v = Fraction(c)
+            for a in m:
+                if a not in xs:
+                    v *= eval_atom(a, env)
+            if inx:
+                A[i][xs.index(inx[0])] += v
+            else:
+                b[i] -= v
+    # Gaussian elimination
+    for col in range(n):
+        piv = next((r for r in range(col, n) if A[r][col] != 0), None)
+        if piv is None:
+            return False
+        A[col], A[piv] = A[piv], A[col]
+        b[col], b[piv] = b[piv], b[col]
+        for r in range(n):
+            if r != col and A[r][col] != 0:
+                f = A[r][col] / A[col][col]
+                A[r] = [x - f * y for x, y in zip(A[r], A[col])]
+                b[r] -= f * b[col]
+    for i, x in enumerate(xs):
+        env[x] = b[i] / A[i][i]
+    return True
+
+
 def find_witness(rel, e, ds, tries=600, extra=(), spheres=()):
     """a rational point where  e rel 0  holds exactly and every polynomial of ds is non-zero (exact evaluation); None if none found.
     `extra`: further (rel, poly) constraints that must hold at the point.  `spheres`: tuples of lane atom ids constrained to the unit
@@ -889,6 +979,16 @@ def find_witness(rel, e, ds, tries=600, extra=(), spheres=()):
 
     def holds(r_, v):
         return (v < 0) if r_ == 'lt' else (v > 0) if r_ == 'gt' else (v == 0)
+    eqs = ([e] if rel == 'eq' else []) + [q for r_, q in extra if r_ == 'eq']
+    lin_cands = []
+    if len(eqs) > 1:
+        for x in vs:
+            if x in onsphere:
+                continue
+            if all(q.degree_in(x) <= 1 and not any(_mentions(atom_key(a), x) for a in q.atoms() if a != x) for q in eqs) and any(q.degree_in(x) == 1 for q in eqs):
+                lin_cands.append(x)
+        if len(lin_cands) < len(eqs):
+            return None
     for _ in range(tries):
         env = {v: rng.choice(_POOL) for v in vs}
         for sp in spheres:
@@ -898,7 +998,10 @@ def find_witness(rel, e, ds, tries=600, extra=(), spheres=()):
             c_, s_ = _sphere_point(rng, 2)
             env[('trig', kq)] = (c_, s_)
         try:
-            if rel == 'eq' and top:
+            if len(eqs) > 1:
+                if not _solve_affine(eqs, lin_cands, env, rng):
+                    continue
+            elif rel == 'eq' and top:
                 x = rng.choice(top)
                 # e = A x^2 + B x + C at the sampled values of the other variables
                 A = B = C = Fraction(0)
@@ -1084,4 +1187,20 @@ def decision_equal(t1, t2, max_atoms=6, post=None, nan=True):
                     env = find_witness(rel, pa - pb, ds)
                     if env is not None:
                         return (False, desc + ' (e.g. at ' + show_env(env) + ')', mine[0][1], mine[0][2])
+        # a separation that depends on several comparisons: look for an explicit rational point that realises one separated row
+        # (every comparison of the row holds there exactly and the two results, evaluated exactly, differ)
+        if all(at[0] == 'pair' for at in atoms):
+            for vals, a, b in seps[:24]:
+                if any(v == 'uno' for v in vals) or not transparent(a - b):
+                    continue
+                cons = [(v, infos[at][0] - infos[at][1]) for at, v in zip(atoms, vals)]
+                if not all(transparent(e_) for _, e_ in cons):
+                    continue
+                eqs = [c_ for c_ in cons if c_[0] == 'eq']
+                first = eqs[0] if eqs else cons[0]
+                rest = [c_ for c_ in cons if c_ is not first]
+                env = find_witness(first[0], first[1], [a - b], extra=rest, tries=300)
+                if env is not None:
+                    desc = ' and '.join('%s %s %s' % (show_poly(infos[at][0], limit=3), {'lt': '<', 'eq': '==', 'gt': '>'}[v], show_poly(infos[at][1], limit=3)) for at, v in zip(atoms, vals))
+                    return (False, desc + ' (e.g. at ' + show_env(env) + ')', a, b)
         return None
